@@ -10,7 +10,7 @@ CONSTANTS
   OnTimeout = "ready"
   OkayRequired = 3
   Budgets = {0}
-  MaxStop = 1
+  MaxStop = 0
   Transport = "tls"
   Redial = "on_failure"
   MaxReset = 1
